@@ -2,13 +2,15 @@
 
 Theorems: coq/Properties/C15.v (invariant by induction over call sequences of the heap machine
 coq/Model/Heap.v; S = coq/Spec/ModelWF.v).  Tie: operation-sequence correspondence.  Random histories
-of 1-40 calls (valid and invalid arguments) over a universe of 2 documents and 22 elements are run on
-the real ttconv.model objects; after EVERY call the whole object graph is dumped through the public
-getters (plus, read-only, the private dictionaries for their key order) into a heap literal; inside
-Coq the dumped heap must equal M's heap after the same call from the same state, the outcome class
-(returned / which exception) must equal M's, and S (wf_b, atomicity of rejected single-element calls)
-is evaluated on the dumped heap.  The validate functions of style_properties.py are compared with
-M's `validate` on every (property, sample value) pair."""
+of 1-40 calls (valid and invalid arguments; every public method of ContentElement / ContentDocument,
+the read-only ones included) over a universe of 2 documents and 22 elements are run on the real
+ttconv.model objects; after EVERY call the whole object graph is dumped through the public getters
+(plus, read-only, the private dictionaries for their key order and Region._users) into a heap
+literal; inside Coq the dumped heap must equal M's heap after the same call from the same state, the
+outcome class (returned / which exception) and the returned value must equal M's, and S (wf_b,
+atomicity of rejected single-element calls) and the representation invariant rep_b are evaluated on
+the dumped heap.  The validate functions of style_properties.py are compared with M's `validate` on
+every (property, sample value) pair, the _applicableStyles tables on every (class, property) pair."""
 import json, os
 import os, re, sys, json, random
 from fractions import Fraction
@@ -20,9 +22,8 @@ REGION_IDS = {19: 1, 20: 1, 21: 2}           # two Region objects share the id "
 IDS = {0: "a", 1: "r1", 2: "r2", 3: "zz"}
 IDTAG = {v: k for k, v in IDS.items()}
 NDOCS = 2
-FINDING_IDS = {1: "put-region-replace", 2: "remove-region-outside-body", 3: "set-region-by-id",
-               4: "set-doc-none-half-applied", 5: "set-doc-on-child", 6: "push-children-half-applied",
-               7: "rtc-lone-rp", 8: "rtc-push-children-appends"}
+TEXTS = ["", "a", "b c"]                      # Text contents; the heap holds the index
+LANGS = ["", "en", "fr"]                      # document languages
 PROPS = ["BackgroundColor", "Color", "Direction", "Disparity", "Display", "DisplayAlign", "Extent", "FillLineGap",
          "FontFamily", "FontSize", "FontStyle", "FontWeight", "LineHeight", "LinePadding", "LuminanceGain",
          "MultiRowAlign", "Opacity", "Origin", "Overflow", "Padding", "Position", "RubyAlign", "RubyPosition",
@@ -35,7 +36,7 @@ ENUMS = {"DirectionType": "EDirection", "DisplayType": "EDisplay", "DisplayAlign
          "ShowBackgroundType": "EShowBackground", "TextAlignType": "ETextAlign", "TextCombineType": "ETextCombine",
          "UnicodeBidiType": "EUnicodeBidi", "VisibilityType": "EVisibility", "WrapOptionType": "EWrapOption",
          "WritingModeType": "EWritingMode", "GenericFontFamilyType": "EGenericFontFamily"}
-EXN = {"RuntimeError": 1, "ValueError": 2, "TypeError": 3, "AttributeError": 4}
+EXN = {"RuntimeError": 1, "ValueError": 2, "TypeError": 3, "AttributeError": 4, "IndexError": 5}
 
 
 class Junk:          # a field value that is not a LengthType
@@ -97,6 +98,22 @@ def value_pool():
     return pool
 
 
+def doc_pools():
+    """values of the Document parameters; the heap holds the index (0 = the default where there is one)"""
+    import ttconv.model as m
+    return dict(active=[m.ActiveAreaType(0.1, 0.1, 0.8, 0.8), m.ActiveAreaType()],
+                cell=[m.CellResolutionType(rows=15, columns=32), m.CellResolutionType(rows=10, columns=20), m.CellResolutionType(rows=5, columns=40)],
+                px=[m.PixelResolutionType(width=1920, height=1080), m.PixelResolutionType(width=640, height=480)],
+                dar=[Fraction(16, 9), Fraction(4, 3)], lang=LANGS)
+
+
+def tag_of(pool, v):
+    if v is None: return None
+    for i, x in enumerate(pool):
+        if type(x) is type(v) and x == v: return i
+    return 99
+
+
 def props_table():
     """StyleProperties.ALL by name; fail closed on an unknown or missing property"""
     import ttconv.style_properties as sp
@@ -126,6 +143,7 @@ class Universe:
             self.els.append(e); self.init.append((k, d, idt))
         self.index = {id(e): i for i, e in enumerate(self.els)}
         self.dindex = {id(d): i for i, d in enumerate(self.docs)}
+        self.pools = doc_pools()
 
     def ref(self, e):
         if e is None: return None
@@ -146,18 +164,22 @@ class Universe:
         for i, e in enumerate(self.els):
             styles = tuple((p.__name__, classify(e.get_style(p))) for p in e.iter_styles())
             anims = tuple((a.style_property.__name__, classify(a.value)) for a in e.iter_animation_steps())
+            users = tuple(sorted(self.ref(u) for u in getattr(e, "_users", ())))       # read-only: Region._users
+            text = tag_of(TEXTS, e.get_text()) if self.kinds[i] == "Text" else 0
             nodes.append((self.kinds[i], self.dref(e.get_doc()), self.ref(e.parent()), self.ref(e.first_child()),
                           self.ref(e.last_child()), self.ref(e.next_sibling()), self.ref(e.previous_sibling()),
                           self.ref(e.get_region()), e.get_begin() is not None, e.get_end() is not None,
                           self.idtag(e.get_id()), e.get_lang() != "", e.get_space() is m.WhiteSpaceHandling.PRESERVE,
-                          styles, anims))
+                          styles, anims, users, text))
         docs = []
         for d in self.docs:
             regs = tuple((self.idtag(k), self.ref(r)) for k, r in d._regions.items())   # read-only: key order
             if [r for _, r in regs] != [self.ref(r) for r in d.iter_regions()]:
                 raise RuntimeError("iter_regions disagrees with the registry")
             inits = tuple((p.__name__, classify(v)) for p, v in d.iter_initial_values())
-            docs.append((regs, self.ref(d.get_body()), inits))
+            P = self.pools
+            docs.append((regs, self.ref(d.get_body()), inits, tag_of(P["active"], d.get_active_area()), tag_of(P["cell"], d.get_cell_resolution()),
+                         tag_of(P["px"], d.get_px_resolution()), tag_of(P["dar"], d.get_display_aspect_ratio()), tag_of(P["lang"], d.get_lang())))
         return nodes, docs
 
     def lengths_agree(self):
@@ -175,12 +197,34 @@ def o(x): return "None" if x is None else f"(Some {x})"
 def b(x): return "true" if x else "false"
 def pvlist(l): return "[" + ";".join(f"(P{p},{v})" for p, v in l) + "]"
 def node_lit(n):
-    k, d, pa, fi, la, nx, pv, rg, bg, en, idt, lg, spc, st, an = n
-    return f"(N_ K{k} {o(d)} {o(pa)} {o(fi)} {o(la)} {o(nx)} {o(pv)} {o(rg)} {b(bg)} {b(en)} {o(idt)} {b(lg)} {b(spc)} {pvlist(st)} {pvlist(an)})"
+    k, d, pa, fi, la, nx, pv, rg, bg, en, idt, lg, spc, st, an, us, tx = n
+    return (f"(N_ K{k} {o(d)} {o(pa)} {o(fi)} {o(la)} {o(nx)} {o(pv)} {o(rg)} {b(bg)} {b(en)} {o(idt)} {b(lg)} {b(spc)} {pvlist(st)} {pvlist(an)} "
+            f"[{';'.join(map(str, us))}] {tx})")
 def doc_lit(d):
-    regs, body, inits = d
-    return "(D_ [" + ";".join(f"({k},{r})" for k, r in regs) + f"] {o(body)} {pvlist(inits)})"
+    regs, body, inits, act, cell, px, dar, lang = d
+    return "(D_ [" + ";".join(f"({k},{r})" for k, r in regs) + f"] {o(body)} {pvlist(inits)} {o(act)} {cell} {px} {o(dar)} {lang})"
 def pref_lit(p): return "PInvalid" if p is None else f"(PValid P{p})"
+def darg_lit(v): return "DNone" if v is None else "DBad" if v == "bad" else f"(DVal {v})"
+def query_lit(q):
+    t = q[0]
+    if t in ("iter", "len", "dfs", "root", "is_attached", "get_text"):
+        return {"iter": "QIter", "len": "QLen", "dfs": "QDfs", "root": "QRoot", "is_attached": "QIsAttached", "get_text": "QGetText"}[t] + f" {q[1]}"
+    if t == "getitem": return f"QGetItem {q[1]} {q[2]} {b(q[3])}"
+    if t in ("has_style", "get_style", "applicable", "has_initial", "get_initial"):
+        return {"has_style": "QHasStyle", "get_style": "QGetStyle", "applicable": "QApplicable", "has_initial": "QHasInitial",
+                "get_initial": "QGetInitial"}[t] + f" {q[1]} {pref_lit(q[2])}"
+    if t in ("has_region", "get_region"): return ("QHasRegion" if t == "has_region" else "QGetRegion") + f" {q[1]} {q[2]}"
+    raise ValueError(t)
+def rval_lit(r):
+    """the value returned by a read-only method, as a Gallina rval"""
+    if r is None: return "RNone"
+    k, v = r
+    if k == "bool": return f"(RBool {b(v)})"
+    if k == "nat": return f"(RNat {v})"
+    if k == "onat": return f"(RONat {o(v)})"
+    if k == "list": return "(RList [" + ";".join(map(str, v)) + "])"
+    if k == "sval": return f"(RSval {o(v)})"
+    raise ValueError(k)
 def call_lit(c):
     t = c[0]
     if t == "push_child": return f"(CPushChild {c[1]} {c[2]})"
@@ -202,13 +246,46 @@ def call_lit(c):
         return f"(C{''.join(w.capitalize() for w in t.split('_'))} {c[1]} {b(c[2])})"
     if t == "set_id":
         return f"(CSetId {c[1]} " + ("IdNone" if c[2] is None else "IdBad" if c[2] == "bad" else f"(IdOk {c[2]})") + ")"
+    if t == "remove_anim": return f"(CRemoveAnim {c[1]} P{c[2]} {c[3]})"
+    if t == "remove_initial": return f"(CRemoveInitial {c[1]} {pref_lit(c[2])})"
+    if t == "set_text": return f"(CSetText {c[1]} {o(c[2])})"
+    if t in ("set_active", "set_cell", "set_px", "set_dar", "set_doc_lang"):
+        return "(C" + {"set_active": "SetActive", "set_cell": "SetCell", "set_px": "SetPx", "set_dar": "SetDar", "set_doc_lang": "SetDocLang"}[t] + f" {c[1]} {darg_lit(c[2])})"
+    if t == "doc_copy_to": return f"(CDocCopyTo {c[1]} {c[2]})"
+    if t == "query": return f"(CQuery ({query_lit(c[1])}))"
     raise ValueError(t)
 
 
 # ------------------------------------------------------------------ running one call on the real objects
+JUNK_KEYS = [int, "Color", 7]          # hashable objects that are not style properties
+
+
+def run_query(U, q, PT):
+    """the value of a read-only method, tagged with its Gallina result type"""
+    E = U.els; D = U.docs; t = q[0]
+    def P(i): return PT[q[2]] if q[2] else JUNK_KEYS[q[3] % len(JUNK_KEYS)]
+    if t == "iter": return ("list", [U.ref(x) for x in list(E[q[1]])])
+    if t == "len": return ("nat", len(E[q[1]]))
+    if t == "getitem": return ("onat", U.ref(E[q[1]][-(q[2] + 1) if q[3] else q[2]]))
+    if t == "dfs": return ("list", [U.ref(x) for x in E[q[1]].dfs_iterator()])
+    if t == "root": return ("nat", U.ref(E[q[1]].root()))
+    if t == "has_style": return ("bool", bool(E[q[1]].has_style(P(0))))
+    if t == "get_style":
+        v = E[q[1]].get_style(P(0)); return ("sval", None if v is None else classify(v))
+    if t == "applicable": return ("bool", bool(E[q[1]].is_style_applicable(P(0))))
+    if t == "is_attached": return ("bool", bool(E[q[1]].is_attached()))
+    if t == "get_text": return ("nat", tag_of(TEXTS, E[q[1]].get_text()))
+    if t == "has_region": return ("bool", bool(D[q[1]].has_region(IDS[q[2]])))
+    if t == "get_region": return ("onat", U.ref(D[q[1]].get_region(IDS[q[2]])))
+    if t == "has_initial": return ("bool", bool(D[q[1]].has_initial_value(P(0))))
+    if t == "get_initial":
+        v = D[q[1]].get_initial_value(P(0)); return ("sval", None if v is None else classify(v))
+    raise AssertionError(t)
+
+
 def execute(U, c, PT):
-    """returns the outcome code: 0 returned, 1-4 exception class, 7 anything else"""
-    m = U.m; E = U.els; D = U.docs; t = c[0]
+    """returns (outcome code, returned value): 0 returned, 1-5 exception class, 7 anything else"""
+    m = U.m; E = U.els; D = U.docs; t = c[0]; rv = None
     try:
         if t == "push_child": E[c[1]].push_child(E[c[2]])
         elif t == "push_children": E[c[1]].push_children([E[i] for i in c[2]])
@@ -230,12 +307,22 @@ def execute(U, c, PT):
         elif t == "set_lang": E[c[1]].set_lang("en" if c[2] else "")
         elif t == "set_space": E[c[1]].set_space(m.WhiteSpaceHandling.PRESERVE if c[2] else m.WhiteSpaceHandling.DEFAULT)
         elif t == "set_id": E[c[1]].set_id(None if c[2] is None else "1 bad" if c[2] == "bad" else IDS[c[2]])
+        elif t == "remove_anim": E[c[1]].remove_animation_step(c[4])
+        elif t == "remove_initial": D[c[1]].remove_initial_value(PT[c[2]] if c[2] else JUNK_KEYS[c[3] % len(JUNK_KEYS)])
+        elif t == "set_text": E[c[1]].set_text(5 if c[2] is None else TEXTS[c[2]])
+        elif t in ("set_active", "set_cell", "set_px", "set_dar", "set_doc_lang"):
+            pool = U.pools[{"set_active": "active", "set_cell": "cell", "set_px": "px", "set_dar": "dar", "set_doc_lang": "lang"}[t]]
+            arg = None if c[2] is None else (5 if t == "set_doc_lang" else "x") if c[2] == "bad" else pool[c[2]]
+            getattr(D[c[1]], {"set_active": "set_active_area", "set_cell": "set_cell_resolution", "set_px": "set_px_resolution",
+                              "set_dar": "set_display_aspect_ratio", "set_doc_lang": "set_lang"}[t])(arg)
+        elif t == "doc_copy_to": D[c[1]].copy_to(D[c[2]])
+        elif t == "query": rv = run_query(U, c[1], PT)
         else: raise AssertionError(t)
-        return 0
-    except (RuntimeError, ValueError, TypeError, AttributeError) as e:
-        return EXN.get(type(e).__name__, 7)
+        return 0, rv
+    except (RuntimeError, ValueError, TypeError, AttributeError, IndexError) as e:
+        return EXN.get(type(e).__name__, 7), None
     except RecursionError:
-        return 7
+        return 7, None
 
 
 # ------------------------------------------------------------------ generator
@@ -248,42 +335,6 @@ def is_anc_or_self(a, x):
     while x is not None:
         if x is a: return True
         x = x.parent()
-    return False
-
-
-def approx_trigger(U, c):
-    """generation-time approximation of the recorded findings' call shapes (used only to steer the
-    generator; the verdict uses the Coq triggers)"""
-    E = U.els; D = U.docs; t = c[0]
-    def pushable(s, ch): return ch.parent() is None and ch.get_doc() is s.get_doc() and not is_anc_or_self(ch, s)
-    if t == "put_region":
-        d, r = D[c[1]], E[c[2]]
-        if KINDS[c[2]] != "Region" or r.get_doc() is not d: return False
-        old = d.get_region(r.get_id())
-        return old is not None and old is not r and any(e.get_region() is old for e in E)
-    if t == "remove_region":
-        d = D[c[1]]; old = d.get_region(IDS[c[2]])
-        if old is None: return False
-        under = set(id(x) for x in d.get_body().dfs_iterator()) if d.get_body() is not None else set()
-        return any(e.get_region() is old and id(e) not in under for e in E)
-    if t == "set_region" and c[2] is not None:
-        s, r = E[c[1]], E[c[2]]
-        if KINDS[c[1]] in ("Br", "Text", "Region") or s.get_doc() is None or r.get_id() is None: return False
-        old = s.get_doc().get_region(r.get_id())
-        return old is not None and old is not r
-    if t == "set_doc":
-        s = E[c[1]]
-        if c[2] is None: return s.parent() is None and s.has_children()
-        return s.parent() is not None and s.get_doc() is None
-    if t == "push_child":
-        return KINDS[c[1]] == "Rtc" and KINDS[c[2]] == "Rp" and not E[c[1]].has_children()
-    if t == "push_children":
-        s = E[c[1]]; ks = [KINDS[i] for i in c[2]]
-        if KINDS[c[1]] == "Rtc" and s.has_children() and c[2]:
-            return True
-        if KINDS[c[1]] in ("Ruby", "Rtc") and c[2]:
-            ok = len(set(c[2])) == len(c[2]) and all(pushable(s, E[i]) for i in c[2])
-            return pushable(s, E[c[2][0]]) and not ok
     return False
 
 
@@ -304,8 +355,8 @@ def gen_call(rng, U, PT, pool, wild):
         return p, pick_val(), None
     kind = rng.choices(["push_child", "push_children", "remove", "remove_child", "remove_children", "set_doc", "set_region",
                         "put_region", "remove_region", "set_body", "set_style", "add_anim", "add_anim_bad", "put_initial",
-                        "copy_to", "setter"],
-                       [22, 9, 5, 5, 3, 9, 9, 9, 4, 5, 7, 4, 0.4, 3, 4, 4])[0]
+                        "copy_to", "setter", "remove_anim", "remove_initial", "set_text", "doc_param", "doc_copy_to", "query"],
+                       [22, 9, 5, 5, 3, 9, 13, 10, 5, 5, 7, 4, 0.4, 3, 4, 4, 2, 1.2, 1.5, 3, 1, 9])[0]
     plausible = rng.random() < 0.75
     if kind == "push_child":
         if plausible:
@@ -361,6 +412,9 @@ def gen_call(rng, U, PT, pool, wild):
         return ("set_doc", s, rng.choice([None, 0, 0, 1]))
     if kind == "set_region":
         s = rng.randrange(n)
+        if plausible:
+            able = [i for i in range(n) if KINDS[i] not in ("Br", "Text", "Region") and E[i].get_doc() is not None and list(E[i].get_doc().iter_regions())]
+            if able and rng.random() < 0.8: s = rng.choice(able)
         if plausible and E[s].get_doc() is not None:
             regs = [U.ref(r) for r in E[s].get_doc().iter_regions()]
             if regs and rng.random() < 0.8: return ("set_region", s, rng.choice(regs))
@@ -368,9 +422,15 @@ def gen_call(rng, U, PT, pool, wild):
     if kind == "put_region":
         if plausible:
             r = rng.choice([19, 20, 21]); d = U.dref(E[r].get_doc())
+            # replacing a region that is referenced: the other Region object carrying the same id
+            used = [(U.dref(e.get_doc()), U.ref(e.get_region())) for e in E if e.get_region() is not None and e.get_doc() is not None]
+            swap = [(dd, 39 - rr) for dd, rr in used if rr in (19, 20) and U.dref(E[39 - rr].get_doc()) == dd]
+            if swap and rng.random() < 0.35: return ("put_region",) + rng.choice(swap)
             if d is not None: return ("put_region", d, r)
         return ("put_region", rng.randrange(NDOCS), rng.choice([19, 20, 21, rng.randrange(n)]))
     if kind == "remove_region":
+        used = [(U.dref(e.get_doc()), IDTAG.get(e.get_region().get_id(), 3)) for e in E if e.get_region() is not None and e.get_doc() is not None]
+        if used and rng.random() < 0.5: return ("remove_region",) + rng.choice(used)
         return ("remove_region", rng.randrange(NDOCS), rng.choice([1, 1, 2, 3]))
     if kind == "set_body":
         if plausible:
@@ -388,9 +448,52 @@ def gen_call(rng, U, PT, pool, wild):
         if plausible:
             same = [i for i in range(n) if KINDS[i] == KINDS[s]]
             dst = rng.choice(same)
-        if s == dst and KINDS[s] in ("Br", "Region") and list(E[s].iter_animation_steps()):
-            dst = (s + 1) % n          # copy_to(self) would never return (the list grows while it is iterated)
         return ("copy_to", s, dst)
+    if kind == "remove_anim":
+        have = [i for i in range(n) if list(E[i].iter_animation_steps())]
+        s = rng.choice(have) if have and plausible else rng.randrange(n)
+        steps = list(E[s].iter_animation_steps())
+        shapes = [(a.style_property.__name__, classify(a.value)) for a in steps]
+        # a present step; M sees shapes only, so the step must be one whose shape tells it apart exactly like == does
+        ok = [k for k in range(len(steps)) if all((shapes[j] == shapes[k]) == (steps[j] == steps[k]) for j in range(k))]
+        if ok and rng.random() < 0.8:
+            k = rng.choice(ok); return ("remove_anim", s, shapes[k][0], shapes[k][1], steps[k])
+        for _ in range(20):                        # a step that is not there (nor any of its shape)
+            pn = rng.choice(PROPS); good = [v for v in pool if safe_validate(PT[pn], v) is True]
+            v = rng.choice(good)
+            if (pn, classify(v)) not in shapes:
+                return ("remove_anim", s, pn, classify(v), U.m.DiscreteAnimationStep(PT[pn], None, None, v))
+        return ("set_begin", s, False)
+    if kind == "remove_initial":
+        d = rng.randrange(NDOCS); have = [pp.__name__ for pp, _ in D[d].iter_initial_values()]
+        if have and rng.random() < 0.6: return ("remove_initial", d, rng.choice(have), 0)
+        return ("remove_initial", d, rng.choice(PROPS + [None]), rng.randrange(3))
+    if kind == "set_text":
+        s = 9 if plausible else rng.randrange(n)
+        return ("set_text", s, rng.choice([0, 1, 2, 1, 2, None]))
+    if kind == "doc_param":
+        which = rng.choice(["set_active", "set_cell", "set_px", "set_dar", "set_doc_lang"])
+        size = len(U.pools[{"set_active": "active", "set_cell": "cell", "set_px": "px", "set_dar": "dar", "set_doc_lang": "lang"}[which]])
+        return (which, rng.randrange(NDOCS), rng.choice(list(range(size)) * 3 + [None, "bad"]))
+    if kind == "doc_copy_to":
+        return ("doc_copy_to", rng.randrange(NDOCS), rng.randrange(NDOCS))
+    if kind == "query":
+        withkids = [i for i in range(n) if E[i].has_children()]
+        s = rng.choice(withkids) if withkids and rng.random() < 0.6 else rng.randrange(n)
+        q = rng.choice(["iter", "len", "getitem", "dfs", "dfs", "root", "has_style", "get_style", "applicable", "is_attached",
+                        "get_text", "has_region", "get_region", "has_initial", "get_initial"])
+        if q in ("iter", "len", "dfs", "root", "is_attached"): return ("query", (q, s))
+        if q == "get_text": return ("query", (q, 9 if rng.random() < 0.7 else s))
+        if q == "getitem": return ("query", (q, s, rng.randrange(0, 4), rng.random() < 0.4))
+        if q in ("has_region", "get_region"): return ("query", (q, rng.randrange(NDOCS), rng.choice([1, 1, 2, 3, 0])))
+        pn = rng.choice(PROPS + [None]) if rng.random() < 0.3 else None
+        if q in ("has_style", "get_style", "applicable"):
+            st = [pp.__name__ for pp in E[s].iter_styles()]
+            if pn is None and rng.random() < 0.9: pn = rng.choice(st) if st and rng.random() < 0.6 else rng.choice(PROPS)
+            return ("query", (q, s, pn, rng.randrange(3)))
+        d = rng.randrange(NDOCS); st = [pp.__name__ for pp, _ in D[d].iter_initial_values()]
+        if pn is None and rng.random() < 0.9: pn = rng.choice(st) if st and rng.random() < 0.6 else rng.choice(PROPS)
+        return ("query", (q, d, pn, rng.randrange(3)))
     which = rng.choice(["set_begin", "set_end", "set_lang", "set_space", "set_id"])
     if which == "set_id":
         return ("set_id", rng.randrange(n), rng.choice([None, 0, 0, 1, 2, "bad"]))
@@ -434,6 +537,14 @@ def guarded_long(f, *a):
         signal.setitimer(signal.ITIMER_REAL, 0)
 
 
+def jsonable(c):
+    def j(x):
+        if isinstance(x, (int, str, type(None), bool)): return x
+        if isinstance(x, (list, tuple)): return [j(y) for y in x]
+        return repr(x)
+    return [j(x) for x in c]
+
+
 def gen_history(seed, PT, pool):
     """run one random history on fresh objects; returns (init, steps, calls-as-json, flags)"""
     rng = random.Random(seed)
@@ -448,25 +559,29 @@ def gen_history(seed, PT, pool):
     wild = rng.random() < 0.35
     nsteps = rng.randrange(1, 41)
     prev_n, prev_d = U.dump()
-    steps = []; calls = []; lengths_ok = True; fired = False; kinds_used = set(); shape = dict(depth=0, ruby=0, regrefs=0, styled=0)
+    steps = []; calls = []; lengths_ok = True; kinds_used = set(); shape = dict(depth=0, ruby=0, regrefs=0, styled=0, replaced=0, outside=0, detached_tree=0)
     for _ in range(nsteps):
-        c = None
-        for _try in range(20):
-            c = gen_call(rng, U, PT, pool, wild)
-            if not approx_trigger(U, c): break
-            if wild and rng.random() < 0.3: break
-        was_trigger = approx_trigger(U, c)
+        c = gen_call(rng, U, PT, pool, wild)
+        # the situations of the former findings, counted for the evidence
+        if c[0] == "put_region" and KINDS[c[2]] == "Region":
+            old = U.docs[c[1]].get_region(U.els[c[2]].get_id())
+            if old is not None and old is not U.els[c[2]] and any(e.get_region() is old for e in U.els): shape["replaced"] += 1
+        if c[0] == "remove_region":
+            old = U.docs[c[1]].get_region(IDS[c[2]]); body = U.docs[c[1]].get_body()
+            under = set(id(x) for x in body.dfs_iterator()) if body is not None else set()
+            if old is not None and any(e.get_region() is old and id(e) not in under for e in U.els): shape["outside"] += 1
+        if c[0] == "set_doc" and U.els[c[1]].parent() is None and U.els[c[1]].has_children(): shape["detached_tree"] += 1
         try:
-            oc = guarded(execute, U, c, PT)
+            oc, rv = guarded(execute, U, c, PT)
             n2, d2 = guarded(U.dump)
         except Hang:
-            calls.append([x if isinstance(x, (int, str, list, type(None), bool)) else repr(x) for x in c])
-            return U.init, steps, calls, dict(lengths_ok=lengths_ok, wild=wild, fired=fired, kinds=kinds_used, docsel=docsel, shape=shape, hang=True)
+            calls.append(jsonable(c))
+            return U.init, steps, calls, dict(lengths_ok=lengths_ok, wild=wild, kinds=kinds_used, docsel=docsel, shape=shape, hang=True)
         dn = [(i, n2[i]) for i in range(len(n2)) if n2[i] != prev_n[i]]
         dd = [(i, d2[i]) for i in range(len(d2)) if d2[i] != prev_d[i]]
-        steps.append((c, oc, dn, dd)); prev_n, prev_d = n2, d2
-        calls.append([x if isinstance(x, (int, str, list, type(None), bool)) else repr(x) for x in c])
-        kinds_used.add((c[0], oc != 0))
+        steps.append((c, oc, rv, dn, dd)); prev_n, prev_d = n2, d2
+        calls.append(jsonable(c))
+        kinds_used.add((c[0] if c[0] != "query" else "query:" + c[1][0], oc != 0))
         if not U.lengths_agree(): lengths_ok = False
         for e in U.els:
             dpt = 0; x = e
@@ -475,23 +590,20 @@ def gen_history(seed, PT, pool):
         shape["ruby"] = max(shape["ruby"], len(U.els[10]))
         shape["regrefs"] = max(shape["regrefs"], sum(1 for e in U.els if e.get_region() is not None))
         shape["styled"] = max(shape["styled"], sum(len(list(e.iter_styles())) + len(list(e.iter_animation_steps())) for e in U.els))
-        if was_trigger:
-            fired = True
-            if rng.random() < 0.8: break
-    return U.init, steps, calls, dict(lengths_ok=lengths_ok, wild=wild, fired=fired, kinds=kinds_used, docsel=docsel, shape=shape)
+    return U.init, steps, calls, dict(lengths_ok=lengths_ok, wild=wild, kinds=kinds_used, docsel=docsel, shape=shape)
 
 
 def hist_lit(init, steps):
     el = "[" + ";".join(f"(K{k},{o(d)},{o(i)})" for k, d, i in init) + "]"
     st = []
-    for c, oc, dn, dd in steps:
-        st.append(f"({call_lit(c)},{oc},[" + ";".join(f"({i},{node_lit(x)})" for i, x in dn) + "],[" +
+    for c, oc, rv, dn, dd in steps:
+        st.append(f"({call_lit(c)},{oc},{rval_lit(rv)},[" + ";".join(f"({i},{node_lit(x)})" for i, x in dn) + "],[" +
                   ";".join(f"({i},{doc_lit(x)})" for i, x in dd) + "])")
     return f"(H_ {el} {NDOCS} [\n " + ";\n ".join(st) + "])"
 
 
 HEADER = ("From Coq Require Import List Bool Arith. Import ListNotations.\n"
-          "From TT Require Import Base.HeapTypes Model.Heap Model.HeapTriggers Spec.ModelWF Model.HeapCases.\n")
+          "From TT Require Import Base.HeapTypes Model.Heap Model.HeapRep Spec.ModelWF Model.HeapCases.\n")
 
 
 def worker(args):
@@ -508,14 +620,19 @@ def worker(args):
                 hf.write(json.dumps(dict(seed=s, hang=True, docsel=None,
                                          calls=[["history generated from seed", s, "does not terminate (a traversal of the object graph loops)"]])) + "\n")
             continue
+        except Exception as ex:       # the object graph could not be walked or dumped (e.g. a reference that leaves the universe)
+            with open(path + ".hang", "a") as hf:
+                hf.write(json.dumps(dict(seed=s, hang=True, docsel=None,
+                                         calls=[["history generated from seed", s, "cannot be run or dumped: " + repr(ex)[:300]]])) + "\n")
+            continue
         lits.append(hist_lit(init, steps))
-        meta.append(dict(seed=s, hang=fl.get("hang", False), nsteps=len(steps), lengths_ok=fl["lengths_ok"], wild=fl["wild"], fired=fl["fired"],
+        meta.append(dict(seed=s, hang=fl.get("hang", False), nsteps=len(steps), lengths_ok=fl["lengths_ok"], wild=fl["wild"],
                          kinds=sorted(f"{a}{'!' if r else ''}" for a, r in fl["kinds"]), calls=calls, docsel=fl["docsel"], shape=fl["shape"],
                          outcomes=[st[1] for st in steps]))
     txt = (HEADER + "Definition cases : list hist := [\n" + ";\n".join(lits) + "].\n"
            "Definition vs := Eval vm_compute in map eval_hist cases.\n"
-           "Eval vm_compute in model_ok vs.\nEval vm_compute in spec_ok vs.\nEval vm_compute in strict_ok vs.\n"
-           "Eval vm_compute in (0, fired_counts vs).\nEval vm_compute in (total_steps vs, @nil nat).\n")
+           "Eval vm_compute in model_ok vs.\nEval vm_compute in spec_ok vs.\nEval vm_compute in rep_ok vs.\n"
+           "Eval vm_compute in pca_ok vs.\nEval vm_compute in (total_steps vs, @nil nat).\n")
     with open(path, "w") as f: f.write(txt)
     return k, path, meta, len(txt)
 
@@ -533,6 +650,14 @@ def validate_cases(PT, pool):
            "Eval vm_compute in check_all (map (fun x => Nat.eqb (vcode (validate (fst (fst x)) (snd (fst x)))) (snd x)) rows).\n"
            "Eval vm_compute in check_all (map (fun x => negb (Nat.eqb (snd x) 0) || spec_valid (fst (fst x)) (snd (fst x))) rows).\n"
            "Eval vm_compute in check_all (map (fun x => Bool.eqb (Nat.eqb (snd x) 0) (spec_valid (fst (fst x)) (snd (fst x)))) rows).\n")
+    import ttconv.model as m
+    arows = []
+    for k in sorted(set(KINDS)):
+        for pn in PROPS:
+            arows.append((k, pn, bool(getattr(m, k)("x" if k == "Region" else None).is_style_applicable(PT[pn]))))
+    abody = ";\n".join(f"(K{k},P{pn},{b(v)})" for k, pn, v in arows)
+    txt += (f"Definition arows : list (kind * prop * bool) := [\n{abody}].\n"
+            "Eval vm_compute in check_all (map (fun x => Bool.eqb (existsb (prop_eqb (snd (fst x))) (applicable (fst (fst x)))) (snd x)) arows).\n")
     return rows, txt
 
 
@@ -544,7 +669,8 @@ X_CALLS = [("push_child", 0, 1), ("push_child", 1, 2), ("push_child", 2, 3), ("p
            ("push_child", 0, 0), ("push_child", 1, 3), ("remove", 1), ("remove", 2), ("remove", 3),
            ("set_doc", 0, None), ("set_doc", 0, 1), ("set_doc", 1, None), ("set_doc", 2, 0), ("set_doc", 2, None), ("set_doc", 3, 0),
            ("set_region", 1, 4), ("set_region", 1, 5), ("set_region", 2, 4), ("set_region", 1, None),
-           ("put_region", 0, 4), ("put_region", 0, 5), ("remove_region", 0, 1), ("push_children", 1, [2, 3]), ("remove_children", 1)]
+           ("put_region", 0, 4), ("put_region", 0, 5), ("remove_region", 0, 1), ("push_children", 1, [2, 3]), ("remove_children", 1),
+           ("query", ("dfs", 0)), ("query", ("root", 3)), ("copy_to", 1, 1), ("copy_to", 4, 4)]
 
 
 def exhaustive_sequences(depth):
@@ -559,13 +685,13 @@ def run_sequence(seq):
     for ci in seq:
         c = X_CALLS[ci]
         try:
-            oc = guarded(execute, U, c, None)
+            oc, rv = guarded(execute, U, c, None)
             n2, d2 = guarded(U.dump)
         except Hang:
             return U.init, steps, "hang"
         dn = [(i, n2[i]) for i in range(len(n2)) if n2[i] != prev_n[i]]
         dd = [(i, d2[i]) for i in range(len(d2)) if d2[i] != prev_d[i]]
-        steps.append((c, oc, dn, dd)); prev_n, prev_d = n2, d2
+        steps.append((c, oc, rv, dn, dd)); prev_n, prev_d = n2, d2
         if not U.lengths_agree(): ok = False
     return U.init, steps, ok
 
@@ -578,13 +704,13 @@ def worker_exh(args):
         init, steps, ok = run_sequence(seq)
         lits.append(hist_lit(init, steps))
         hang = (ok == "hang"); ok = (ok is True)
-        meta.append(dict(seed=None, hang=hang, seq=seq, nsteps=len(steps), lengths_ok=ok, wild=True, fired=False, kinds=[],
-                         calls=[list(X_CALLS[i]) for i in seq], docsel=X_DOCSEL, shape=dict(depth=0, ruby=0, regrefs=0, styled=0),
+        meta.append(dict(seed=None, hang=hang, seq=seq, nsteps=len(steps), lengths_ok=ok, wild=True, kinds=[],
+                         calls=[jsonable(X_CALLS[i]) for i in seq], docsel=X_DOCSEL, shape=dict(depth=0, ruby=0, regrefs=0, styled=0, replaced=0, outside=0, detached_tree=0),
                          outcomes=[st[1] for st in steps]))
     txt = (HEADER + "Definition cases : list hist := [\n" + ";\n".join(lits) + "].\n"
            "Definition vs := Eval vm_compute in map eval_hist cases.\n"
-           "Eval vm_compute in model_ok vs.\nEval vm_compute in spec_ok vs.\nEval vm_compute in strict_ok vs.\n"
-           "Eval vm_compute in (0, fired_counts vs).\nEval vm_compute in (total_steps vs, @nil nat).\n")
+           "Eval vm_compute in model_ok vs.\nEval vm_compute in spec_ok vs.\nEval vm_compute in rep_ok vs.\n"
+           "Eval vm_compute in pca_ok vs.\nEval vm_compute in (total_steps vs, @nil nat).\n")
     with open(path, "w") as f: f.write(txt)
     return k, path, meta, len(txt)
 
@@ -637,7 +763,7 @@ def main():
         return run.finish()
 
     C.clean_cases("Cases_C15_")
-    # ---- validate: exhaustive over (property, sample value) -----------------------------------------
+    # ---- validate / _applicableStyles: exhaustive over (property, sample value) and (class, property) ----
     rows, vtxt = validate_cases(PT, pool)
     vpath = f"{C.GEN}/Cases_C15_validate.v"; open(vpath, "w").write(vtxt)
 
@@ -661,21 +787,21 @@ def main():
     broken = []
     # validate verdicts
     rc, out = res[vpath]; pairs = parse_pairs(out)
-    v_model_bad, v_spec_bad = [], []
-    if rc != 0 or len(pairs) != 3: broken.append((vpath, out[-400:]))
+    v_model_bad, v_spec_bad, a_bad = [], [], []
+    if rc != 0 or len(pairs) != 4: broken.append((vpath, out[-400:]))
     else:
-        v_model_bad, v_spec_bad = pairs[0][1], pairs[1][1]
+        v_model_bad, v_spec_bad, a_bad = pairs[0][1], pairs[1][1], pairs[3][1]
         run.cov["validate_pairs"] = pairs[0][0]; run.cov["validate_S_stricter_than_code_on"] = len(pairs[2][1]) - len(pairs[1][1])
+        run.cov["applicable_pairs"] = pairs[3][0]
 
-    m_bad, s_bad, strict_bad = [], [], []; fired = [0] * 8; total_steps = 0; metas = {}
+    m_bad, s_bad, r_bad, p_bad = [], [], [], []; total_steps = 0; metas = {}
     for k, path, meta, _ in done:
         rc, out = res[path]; pairs = parse_pairs(out)
         if rc != 0 or len(pairs) != 5 or pairs[0][0] != len(meta):
             broken.append((path, out[-600:])); continue
         for j, mt in enumerate(meta): metas[(k, j)] = mt
-        m_bad += [(k, j) for j in pairs[0][1]]; s_bad += [(k, j) for j in pairs[1][1]]; strict_bad += [(k, j) for j in pairs[2][1]]
-        fc = pairs[3][1]
-        if len(fc) == 8: fired = [a + c for a, c in zip(fired, fc)]
+        m_bad += [(k, j) for j in pairs[0][1]]; s_bad += [(k, j) for j in pairs[1][1]]
+        r_bad += [(k, j) for j in pairs[2][1]]; p_bad += [(k, j) for j in pairs[3][1]]
         total_steps += pairs[4][0]
     len_bad = [key for key, mt in metas.items() if not mt["lengths_ok"] and not mt.get("hang")]
     hangs = [mt for k_, path_, meta_, _ in done for mt in meta_ if mt.get("hang")]
@@ -687,9 +813,10 @@ def main():
         run.violation(f"a model API call (or reading the children back) does not return: history {hangs[0]['calls'][-6:]} "
                       f"({len(hangs)} histories hang)", dict(kind="S-on-code", clause="links/child lists agree (a traversal never ends)",
                                                              calls=hangs[0]["calls"], docsel=hangs[0]["docsel"], count=len(hangs)))
-    run.log(f"{len(metas)} histories / {total_steps} calls evaluated in Coq: model/code mismatches {len(m_bad)}, S failures outside "
-            f"findings {len(s_bad)}, S failures incl. findings {len(strict_bad)} (by finding {fired}), len/list disagreements "
-            f"{len(len_bad)}, validate mismatches {len(v_model_bad)}, broken case files {len(broken)}")
+    run.log(f"{len(metas)} histories / {total_steps} calls evaluated in Coq: model/code mismatches {len(m_bad)}, S failures "
+            f"{len(s_bad)}, representation invariant failures {len(r_bad)}, rejected Ruby/Rtc push_children that changed the model {len(p_bad)}, "
+            f"len/list disagreements {len(len_bad)}, validate mismatches {len(v_model_bad)}, applicable-table mismatches {len(a_bad)}, "
+            f"broken case files {len(broken)}")
 
     def replay_of(key):
         mt = metas[key]
@@ -705,29 +832,28 @@ def main():
                     calls=mt["calls"], outcomes=mt["outcomes"], coq_explain=det,
                     how="harness/c15.py gen_history(seed) regenerates and re-runs the history on ttconv.model")
 
-    # ---- recorded findings: Findings/C15.v must compile and each finding must still fire ------------------
+    # ---- no finding is recorded for C15 any more: Findings/C15.v only replays the former witnesses on M ----
     rcf, outf = C.coqc(C.COQ + "/Findings/C15.v", 600)
-    stale = []
-    if rcf != 0: stale.append("Findings/C15.v no longer compiles: " + outf[-300:])
-    for k, fid in FINDING_IDS.items():
-        if fired[k - 1]:
-            if not run.known(fid, f"{fired[k - 1]} histories"):
-                key = next((x for x in strict_bad), None)
-                run.violation(f"finding {fid} fires but is not listed", replay_of(key) if key else dict(kind="unlisted", id=fid))
-    run.cov["stale_findings"] = stale + [f"{fid}: no history triggered it in this run" for k, fid in FINDING_IDS.items()
-                                         if not fired[k - 1] and fid not in run.known_printed]
+    run.cov["stale_findings"] = [] if rcf == 0 else ["Findings/C15.v no longer compiles: " + outf[-300:]]
 
     # ---- verdict ---------------------------------------------------------------------------------------------
-    s_fail = bool(s_bad or len_bad or v_spec_bad)
+    s_fail = bool(s_bad or len_bad or v_spec_bad or r_bad or p_bad)
     if s_bad:
-        run.violation(f"the model is not well formed (or a rejected call changed it) after a call sequence that no recorded finding covers "
+        run.violation(f"the model is not well formed (or a rejected single-element call changed it) after a call sequence "
                       f"({len(s_bad)} histories)", dict(kind="S-on-code", spec="coq/Spec/ModelWF.v wf_b + atomicity", **replay_of(s_bad[0])))
+    if r_bad:
+        run.violation(f"Region._users is not the set of elements that reference the region (or a Region has no id) after a call sequence "
+                      f"({len(r_bad)} histories): remove_region / put_region will miss references",
+                      dict(kind="S-on-code", spec="coq/Model/HeapRep.v rep_b (representation invariant the well-formedness proof rests on)", **replay_of(r_bad[0])))
+    if p_bad:
+        run.violation(f"a rejected Ruby/Rtc push_children changed the model ({len(p_bad)} histories)",
+                      dict(kind="S-on-code", spec="C15_push_children_atomic", **replay_of(p_bad[0])))
     if len_bad:
         run.violation("len()/list()/has_children()/parent() disagree", dict(kind="S-on-code", clause="lengths agree", **replay_of(len_bad[0])))
     if v_spec_bad:
         r = rows[v_spec_bad[0]]
         run.violation(f"{r[0]}.validate accepts {r[3]}, which is not a value of the property", dict(kind="S-on-code", prop=r[0], value=r[3], shape=r[1]))
-    if (m_bad or v_model_bad or broken or not proofs_ok) and not s_fail:
+    if (m_bad or v_model_bad or a_bad or broken or not proofs_ok) and not s_fail:
         what = []
         if not proofs_ok: what.append("theorems of coq/Properties/C15.v no longer check: " + getattr(run, "proof_log", "")[-600:])
         rep = dict(kind="broken-tie", theorem_file="coq/Properties/C15.v", proofs_ok=proofs_ok,
@@ -737,6 +863,7 @@ def main():
         if v_model_bad:
             r = rows[v_model_bad[0]]; what.append(f"M's validate differs from {r[0]}.validate on {r[3]} ({len(v_model_bad)} pairs)")
             rep["validate"] = [rows[i][:3] for i in v_model_bad[:20]]
+        if a_bad: what.append(f"M's applicable table differs from _applicableStyles on {len(a_bad)} (class, property) pairs")
         if broken: what.append(f"case files did not evaluate: {broken[0]}")
         run.violation("; ".join(what), rep, found_input=False)
     C.clean_cases("Cases_C15_")
@@ -753,19 +880,23 @@ def main():
     run.cov.update(evaluations=total_steps + len(rows), distinct_nontrivial=len(distinct),
                    rule="random histories of 1-40 model API calls (75% steered towards acceptable arguments, the rest arbitrary: wrong kinds, "
                         "foreign documents, unknown regions, invalid values, parented children, self/ancestors) over 22 elements of all 13 kinds "
-                        "and 2 documents; after every call the dumped object graph is compared with M's heap and judged by S inside Coq. "
+                        "and 2 documents, every public method of ContentElement/ContentDocument incl. the read-only ones; after every call the "
+                        "dumped object graph, the outcome and the returned value are compared with M's and judged by S inside Coq. "
                         "evaluations = calls checked + (property, value) validate pairs; distinct_nontrivial = distinct call sequences.",
                    samples=sample, histories=len(metas) - len(xseqs), calls=total_steps, rejected_calls=n_rejected, wild_histories=n_wild,
-                   calls_by_kind_histories=call_hist, model_code_mismatches=len(m_bad), s_failures_outside_findings=len(s_bad),
-                   s_failures_including_findings=len(strict_bad), histories_per_finding=dict(zip(FINDING_IDS.values(), fired)),
+                   calls_by_kind_histories=call_hist, model_code_mismatches=len(m_bad), s_failures=len(s_bad), rep_failures=len(r_bad),
+                   former_finding_situations=dict(
+                       put_region_replacing_a_referenced_region=sum(mt["shape"]["replaced"] for mt in metas.values()),
+                       remove_region_with_references_outside_the_body=sum(mt["shape"]["outside"] for mt in metas.values()),
+                       set_doc_on_a_root_with_children=sum(mt["shape"]["detached_tree"] for mt in metas.values())),
                    max_tree_depth_histogram={str(k): sum(1 for mt in metas.values() if mt["shape"]["depth"] == k) for k in range(0, 8)},
                    histories_with_complete_ruby=sum(1 for mt in metas.values() if mt["shape"]["ruby"] >= 2),
                    histories_with_region_references=sum(1 for mt in metas.values() if mt["shape"]["regrefs"] > 0),
                    histories_with_stored_values=sum(1 for mt in metas.values() if mt["shape"]["styled"] > 0),
                    history_length_histogram={str(l): sum(1 for mt in metas.values() if (mt["nsteps"] - 1) // 10 == l) for l in range(4)})
     run.assumptions += ["S (Spec/ModelWF.v) reads the content model from doc/data_model.md and takes 'valid value' to be the documented type of each style property; bool counts as a number, an empty font-family tuple is accepted",
-                        "the harness maps Python objects to heap literals (harness/c15.py Universe.dump, classify); text content, time values and language tags are abstracted to set/unset",
-                        "EFuel (non-termination of a link walk) is never produced by the code; Br/Region.copy_to(self) with animation steps never returns and is not issued"]
+                        "the harness maps Python objects to heap literals (harness/c15.py Universe.dump, classify); time values and element language tags are abstracted to set/unset, text contents and document parameters to the index of the value in a pool",
+                        "remove_animation_step is only issued with a step that list.remove tells apart from the earlier steps exactly as its (property, value shape) does (M sees value shapes only)"]
     return run.finish(["harness/c15.py dump/classify (object graph -> heap literal)", "coq/Model/HeapCases.v apply_delta (rebuilds the dumped heap from per-step differences)"])
 
 
